@@ -216,7 +216,7 @@ def evaluate(zc: Any, model: Dict[str, rm.Svc], questions: Sequence[Tuple[str, i
             got[ident(from_lib(rec))] = rec
             adds.setdefault(ident(from_lib(rec)), set()).update(ident(from_lib(a)) for a in additionals)
             for a in additionals:
-                add_ttl[ident(from_lib(a))] = a.ttl
+                add_ttl.setdefault(ident(from_lib(a)), set()).add(a.ttl)
     label = f"query {list(questions)}{' (known answers in continuation packets)' if split else ''} " \
             f"known={[(k[0], k[1], k[3]) + tuple(k[4:5]) for k in known]}"
     want = dict(exp.records)
@@ -245,12 +245,12 @@ def evaluate(zc: Any, model: Dict[str, rm.Svc], questions: Sequence[Tuple[str, i
     if need:
         return f"{label}: no NSEC for {[(s.name, m) for s, m in need]} although the asked address type does not exist"
     rest = {i: r for i, r in got.items() if i[0] != "NSEC" and not (i[0] == "PTR" and i[1] == rm.ENUM)}
-    if set(rest) != set(want):
+    if not (set(want) - exp.optional <= set(rest) <= set(want)):
         return (f"{label}: answers {sorted(rest, key=repr)} != registered records that answer it "
                 f"{sorted(want, key=repr)}")
     for i, rec in rest.items():
-        if rec.ttl != want[i]:
-            return f"{label}: {i} offered with TTL {rec.ttl}, configured {want[i]}"
+        if rec.ttl not in exp.ttls[i]:
+            return f"{label}: {i} offered with TTL {rec.ttl}, configured {sorted(exp.ttls[i])}"
     # additionals: only that service's own SRV/TXT/address/NSEC records
     for i, extra in adds.items():
         owners = rm.owners_of(model, i)
@@ -264,16 +264,17 @@ def evaluate(zc: Any, model: Dict[str, rm.Svc], questions: Sequence[Tuple[str, i
                     return f"{label}: additional {a} of answer {i} is not that service's NSEC record"
             elif a not in allowed:
                 return f"{label}: additional {a} of answer {i} is not one of that service's own records"
-            want_ttl = None
-            for s in owners:
-                if a[0] == "NSEC":
-                    want_ttl = s.host_ttl
+            # the TTL must be one that a registered service owning this very record configured (services sharing a
+            # host and address may configure different TTLs for the same record)
+            allowed_ttls = set()
+            for s in model.values():
+                if a[0] == "NSEC" and a[1] in (s.name.lower(), s.server.lower()):
+                    allowed_ttls.add(s.host_ttl)
                 for r in [s.ptr(), s.srv(), s.txt()] + s.addrs():
                     if ident(r) == a:
-                        want_ttl = r[3]
-            if want_ttl is not None and add_ttl.get(a) != want_ttl and not any(
-                    add_ttl.get(a) == (o.host_ttl if a[0] in ("A", "AAAA", "SRV", "NSEC") else o.other_ttl) for o in owners):
-                return f"{label}: additional {a} offered with TTL {add_ttl.get(a)}, configured {want_ttl}"
+                        allowed_ttls.add(r[3])
+            if allowed_ttls and not add_ttl.get(a, set()) <= allowed_ttls:
+                return f"{label}: additional {a} offered with TTL {sorted(add_ttl.get(a, set()))}, configured {sorted(allowed_ttls)}"
     # never repeat an answer: build each bucket into a real message and look at the sections
     for b in buckets:
         if not b:
